@@ -3,7 +3,7 @@
 export VERIF_REPO=$VP_RUN_REPO
 export VERIF_EVIDENCE_DIR=$PWD/thorough-results/evidence VERIF_FOUND_DIR=$PWD/thorough-results/found
 mkdir -p thorough-results
-for p in C03 C06 C16 C20 C19 C13 C05 C17 C15 C07 C08 C12 C14 C04 C02 C01 C11 C18 C09 C10; do
+for p in ${THOROUGH_LIST:-C03 C16 C12 C14 C17 C06 C05 C08 C09 C10 C20 C19 C13 C15 C07 C04 C02 C01 C11 C18}; do
   s=$(date +%s)
   ./check $p thorough > thorough-results/$p.log 2>&1
   echo "$p exit=$? $(( $(date +%s) - s ))s $(head -c 300 thorough-results/$p.log | head -3 | tr '\n' ' ')"
